@@ -454,7 +454,7 @@ def release_history(job):
     try:
         for spec, seed in zip(specs, seeds):
             _write_project(G.render(spec))
-            rec = {"spec": spec, "seed": seed}
+            rec = {"seed": seed}
             del calls[:]
             try:
                 with _quiet():
@@ -526,6 +526,7 @@ def check_develop_records(ctx, recs, case):
                 ctx.violation("valid step without workspace path", dict(case, upto=i + 1), "develop-no-path")
                 continue
             by_path.setdefault(path, set()).add(key)
+            ctx.case(("develop-step", recipe, vid, path, (prev or {}).get(key)), nontrivial=prev is not None and key in prev)
             if key in cur and cur[key] != path:
                 ctx.violation("one (recipe, Variant-Id) has two directories: %r" % (key,), dict(case, upto=i + 1), "develop-key-two-dirs")
             cur[key] = path
@@ -555,6 +556,7 @@ def check_release_records(ctx, recs, case):
             if path != path2 or path != path3:
                 ctx.violation("workspace of one step not stable within one invocation / interrogator differs: %r" % ([path, path2, path3],),
                               dict(case, upto=i + 1), "release-unstable")
+            ctx.case(("release-step", vid, path, where.get(vid)), nontrivial=vid in where or path in owner)
             if path in owner and owner[path] != vid:
                 ctx.violation("steps with different Variant-Ids share the release workspace %s" % path, dict(case, upto=i + 1),
                               "release-shared-dir")
@@ -644,17 +646,17 @@ def gen_real_script(r, mode, git_urls, rounds):
     if mode == "mixed":
         script.append(build_op())
     for _ in range(rounds):
-        scenario = r.random() < 0.35
+        scenario = r.random() < 0.5
         if scenario:
             # the user edits a checkout (a git clone if there is one) ...
             script.append({"op": "dirty", "pick": r.random()})
             k = r.random()
-            if k < 0.4:
+            if k < 0.5:
                 # ... and the package disappears from the graph: the edited workspace becomes an orphan
                 spec = json.loads(json.dumps(spec))
                 for a in spec["apps"].values():
                     a["lib"] = False
-            elif k < 0.8:
+            elif k < 0.9:
                 # ... and its checkout variant changes (release: new directory, develop: same directory -> attic)
                 spec = json.loads(json.dumps(spec))
                 for n in spec["src_tags"]:
@@ -669,7 +671,7 @@ def gen_real_script(r, mode, git_urls, rounds):
         if r.random() < 0.15:
             script.append({"op": "rmdir", "pick": r.random()})
         ops = clean_ops()
-        if scenario and r.random() < 0.6:
+        if scenario and r.random() < 0.7:
             # sources without force: must keep what the user edited
             for o in ops:
                 o["args"] = [x for x in o["args"] if x not in ("-f", "-s")] + ["-s"]
